@@ -32,6 +32,8 @@ pub struct Case {
     pub prio: Vec<ItemPath>,
     pub modules: Vec<ModEnt>,
     pub nohook: bool,
+    /// O3: add the files through the API in the order of the case instead of `pyxis::build`'s sorted discovery
+    pub api_order: bool,
 }
 
 type R<T> = Result<T, String>;
@@ -67,10 +69,14 @@ pub fn decode_case(s: &Sexp) -> R<Case> {
         .map(decode_modent)
         .collect::<R<Vec<_>>>()?;
     let mut nohook = false;
+    let mut api_order = false;
     for extra in &items[4..] {
         extra.as_list()?; // EXTRA := any other list
         if extra.head() == Some("nohook") {
             nohook = true;
+        }
+        if extra.head() == Some("api-order") {
+            api_order = true;
         }
     }
     Ok(Case {
@@ -79,6 +85,7 @@ pub fn decode_case(s: &Sexp) -> R<Case> {
         prio,
         modules,
         nohook,
+        api_order,
     })
 }
 
